@@ -1,4 +1,4 @@
-import ExprModel.Proofs.Pool
+import ExprModel.Proofs.BcPool
 /-
 C05, part 4: `Frag consts code` — the well-formedness invariant of a compiled fragment — and its closure
 under concatenation and under the emit schemes of compiler.go (and/or, ?:, emitCond, emitLoop, the
@@ -23,7 +23,7 @@ structure Frag (consts : Array Val) (code : List LInstr) : Prop where
   jumps : JumpsClosed (instrs code)
   nest : NestBal (instrs code)
 
-theorem argOk_mono {c c' : Array Val} (e : Ext c c') (i : Instr) (h : argOk c i = true) : argOk c' i = true := by
+theorem argOk_mono {c c' : Array Val} (e : PoolExt c c') (i : Instr) (h : argOk c i = true) : argOk c' i = true := by
   unfold argOk at *
   split
   · rename_i hc; simp only [hc] at h
@@ -33,12 +33,12 @@ theorem argOk_mono {c c' : Array Val} (e : Ext c c') (i : Instr) (h : argOk c i 
   · rename_i hc; simpa [hc] using h
   · rfl
 
-theorem all_argOk_mono {c c' : Array Val} (e : Ext c c') (is : List Instr) (h : is.all (argOk c) = true) :
+theorem all_argOk_mono {c c' : Array Val} (e : PoolExt c c') (is : List Instr) (h : is.all (argOk c) = true) :
     is.all (argOk c') = true := by
   simp only [List.all_eq_true] at *
   exact fun i hi => argOk_mono e i (h i hi)
 
-theorem Frag.mono {c c' : Array Val} {code : List LInstr} (h : Frag c code) (e : Ext c c') : Frag c' code :=
+theorem Frag.mono {c c' : Array Val} {code : List LInstr} (h : Frag c code) (e : PoolExt c c') : Frag c' code :=
   ⟨all_argOk_mono e _ h.args, h.canon, h.jumps, h.nest⟩
 
 theorem Frag.nil (c : Array Val) : Frag c [] := ⟨rfl, rfl, rfl, NestBal.nil⟩
